@@ -519,8 +519,68 @@ def bounded(tier, seed):
         if len(samples) < 3 and picked:
             samples.append({"kind": sorted(kind.features), "compilation_kinds": [c.name for c in seq],
                             "selected": [p[0].__name__ for p in picked], "complete": ok})
+    # (c) single-engine selection on the real registry against an independent reading of the statement, for every operation mode that needs
+    #     no problem instance, every requirement, and kinds of every version (legacy version-1 features included)
+    from unified_planning.engines.mixins.oneshot_planner import OptimalityGuarantee
+    from unified_planning.engines.mixins.anytime_planner import AnytimeGuarantee
+    from unified_planning.plans import PlanKind
+    legacy = ["NUMERIC_FLUENTS", "CONTINUOUS_NUMBERS", "DISCRETE_NUMBERS", "ACTIONS_COST", "OVERSUBSCRIPTION", "CONTINUOUS_TIME", "DISCRETE_TIME"]
+    modes = [(OperationMode.ONESHOT_PLANNER, "og"), (OperationMode.ANYTIME_PLANNER, "ag"), (OperationMode.PLAN_VALIDATOR, "pk"),
+             (OperationMode.COMPILER, "ck"), (OperationMode.PORTFOLIO_SELECTOR, "og"), (OperationMode.PLAN_REPAIRER, "pk")]
+    m_sel = 60 if tier == "quick" else 900
+    combos = []
+    for mode, req in modes:
+        vals = {"og": list(OptimalityGuarantee), "ag": list(AnytimeGuarantee), "pk": list(PlanKind), "ck": cks}[req]
+        for v in [None] + vals:
+            combos.append((mode, req, v))
+    for it, (mode, req, v) in ((i, c_) for i in range(m_sel) for c_ in combos):
+        if (it, mode, req, v) == (it, combos[0][0], combos[0][1], combos[0][2]):
+            ver = rng.choice([1, 1, 2, 3, None])
+            if ver == 1 or (ver is None and rng.random() < 0.5):
+                fs = {"ACTION_BASED"} | {x for x in legacy if rng.random() < 0.45} | {x for x in feats_pool[:9] if rng.random() < 0.2}
+            else:
+                fs = {"ACTION_BASED"} | {x for x in feats_pool if rng.random() < 0.3}
+            try:
+                kind = ProblemKind(fs, version=ver)
+            except Exception:  # noqa: a feature set that does not exist in that version
+                kind = None
+        if kind is None:
+            continue
+        og = v if req == "og" else None
+        ag = v if req == "ag" else None
+        pk = v if req == "pk" else None
+        ck = v if req == "ck" else None
+
+        def qualifies(E):
+            try:
+                return (getattr(E, "is_" + mode.value)() and E.supports(kind) and (ck is None or E.supports_compilation(ck))
+                        and (pk is None or E.supports_plan(pk)) and (og is None or E.satisfies(og)) and (ag is None or E.ensures(ag)))
+            except Exception:  # noqa
+                return None
+        q = [(nm, qualifies(f._engines[nm])) for nm in f.preference_list]
+        if any(v is None for _, v in q):
+            continue
+        want = next((nm for nm, v in q if v), None)
+        evals += 1
+        desc = {"kind": sorted(kind.features), "version": ver, "mode": mode.value, "optimality": str(og), "anytime": str(ag), "plan_kind": str(pk),
+                "compilation_kind": str(ck)}
+        with warnings.catch_warnings():
+            warnings.simplefilter("ignore")
+            try:
+                E = f._get_engine_class(mode, None, kind, og, ck, pk, ag)
+                got = next((nm for nm in f.preference_list if f._engines[nm] is E), E.__name__)
+            except UPNoSuitableEngineAvailableException:
+                got = None
+            except Exception as e:  # noqa
+                failures.append({"what": f"selection [{mode.value}] raised {type(e).__name__}: {e}", "concrete": desc, "observed": str(e)})
+                continue
+        nontrivial.add((mode.value, want))
+        if got != want:
+            failures.append({"what": f"selection [{mode.value}]: the factory " + (f"returned {got}" if got else "raised no-suitable-engine") +
+                                     "; first registered engine meeting every requirement: " + str(want), "concrete": desc, "observed": got})
     return {"evaluations": evals, "distinct_nontrivial": len(nontrivial), "failures": failures[:6],
-            "rule": "random kinds over 17 features x compilation-kind sequences of length 1..3 through the real "
+            "rule": f"{m_sel} kinds x every (operation mode, requirement value) of 6 modes: single-engine selections (kinds of versions 1/2/3/unspecified, legacy features included) "
+                    "against the first-qualifying-engine reading of the statement; random kinds over 17 features x compilation-kind sequences of length 1..3 through the real "
                     "Factory._get_engine; each selected compiler is re-checked against the kind threaded through "
                     "resulting_problem_kind; non-trivial = distinct (intermediate kind, compilation kind) stage",
             "samples": samples, "bound": f"{n} pipelines, length <= 3"}
